@@ -1476,6 +1476,9 @@ func (sc *serverConn) closeBodyStream(strm *Stream) {
 // frame size. It returns true once the entire buffer (and the END_STREAM flag)
 // has been sent. A negative window simply blocks until a WINDOW_UPDATE arrives.
 func (sc *serverConn) sendData(strm *Stream) bool {
+	// sentEnd records that a frame of this call already carried END_STREAM.
+	sentEnd := false
+
 	for {
 		if len(strm.pendingData) == 0 {
 			if strm.bodyStream == nil {
@@ -1493,6 +1496,23 @@ func (sc *serverConn) sendData(strm *Stream) bool {
 			}
 
 			if len(strm.pendingData) == 0 {
+				// The reader finished without handing over any more bytes (an
+				// empty body, or a final read of 0, io.EOF). If no data frame
+				// was left to carry END_STREAM, send an empty one: without it
+				// the peer waits for the rest of the response for ever.
+				if strm.pendingEnd && !sentEnd {
+					fr := AcquireFrameHeader()
+					fr.SetStream(strm.ID())
+
+					data := AcquireFrame(FrameData).(*Data)
+					data.SetEndStream(true)
+					data.SetPadding(false)
+
+					fr.SetBody(data)
+
+					sc.write(fr)
+				}
+
 				break
 			}
 		}
@@ -1517,6 +1537,7 @@ func (sc *serverConn) sendData(strm *Stream) bool {
 		chunk := strm.pendingData[:step]
 		strm.pendingData = strm.pendingData[step:]
 		end := strm.pendingEnd && len(strm.pendingData) == 0
+		sentEnd = sentEnd || end
 
 		fr := AcquireFrameHeader()
 		fr.SetStream(strm.ID())
